@@ -90,7 +90,9 @@ def run(module, cfg_text, *, workers=16, timeout=1500, env=None, simulate=None, 
         with open(cfg, "w") as f:
             f.write(cfg_text)
         meta = os.path.join(scratch, "meta")
-        cmd = ["java", "-XX:+UseParallelGC", "-Xmx" + heap, "-DTLA-Library=" + ":".join(SPEC_DIRS),
+        jtmp = os.path.join(scratch, "jtmp")      # TLC leaves an empty tlc-* directory per run in java.io.tmpdir: keep it inside the scratch
+        os.makedirs(jtmp, exist_ok=True)
+        cmd = ["java", "-XX:+UseParallelGC", "-Xmx" + heap, "-Djava.io.tmpdir=" + jtmp, "-DTLA-Library=" + ":".join(SPEC_DIRS),
                "-cp", JAR + ":" + DEPS, "tlc2.TLC",
                "-workers", str(workers), "-metadir", meta, "-noGenerateSpecTE", "-config", cfg]
         if not deadlock:
